@@ -9,31 +9,70 @@ search for counterexamples when a theorem no longer checks.
 namespace Glm
 
 inductive Kind
-  | poly   -- decision-free, equal as polynomials in every commutative ring
-  | syn    -- decision-free, literally the same expression
-  | frac   -- decision-free, equal as rational functions in every field (denominators ≠ 0)
+  | poly     -- equal as polynomials over atoms, in every commutative-ring-like semantics
+  | syn      -- literally the same expression
+  | frac     -- equal as rational functions over atoms, in every field-like semantics (divisors ≠ 0)
+  | polyMod  -- `poly` modulo the family's polynomial hypotheses (certificate checked)
+  | fracMod  -- `frac` modulo the family's polynomial hypotheses
   deriving DecidableEq, Repr, Inhabited
+
+/-- all outputs as expressions, when the unit is decision-free -/
+def leafList : List Tree → Option (List E)
+  | [] => some []
+  | .leaf e :: ts => (leafList ts).map (e :: ·)
+  | _ => none
+def Unit.leafOuts (u : Unit) : Option (List E) := leafList u.outs
 
 structure Family where
   name : String
+  /-- name prefix of the traced units this family talks about (several families may share units) -/
+  unit : String := name
   kind : Kind
   keys : List (List Nat)
+  /-- number of checked components -/
   nOut : List Nat → Nat
+  /-- number of raw outputs the traced unit must have -/
+  nRaw : List Nat → Nat := nOut
+  /-- what is compared with `spec`: by default the unit's outputs themselves, otherwise an expression
+      built from them (e.g. the entries of `inverse(M) * M`, or a projected corner) -/
+  post : List Nat → (Nat → E) → Nat → E := fun _ o j => o j
   spec : List Nat → Nat → E
-  /-- divisors the code may use (kind `frac`): the theorem assumes exactly these are non-zero -/
+  /-- divisors the code may use (`frac`): the theorem assumes exactly these are non-zero -/
   allowed : List Nat → List E := fun _ => []
+  /-- polynomial hypotheses `l = r` on the atoms (`polyMod`/`fracMod`) and, per component, the
+      multipliers certifying the identity modulo them -/
+  hyps : List Nat → List (E × E) := fun _ => []
+  cert : List Nat → Nat → List E := fun _ _ => []
+  /-- `post` is the identity (outputs compared directly) -/
+  isPlain : Bool := true
   deriving Inhabited
 
+/-- the expression of output `i` of a decision-free unit -/
+def Unit.outE (u : Unit) (i : Nat) : E :=
+  match u.out i with
+  | .leaf e => e
+  | _ => .lit 0 1
+
 def Family.unitName (f : Family) (ks : List Nat) : String :=
-  ks.foldl (fun s k => s ++ "_" ++ toString k) f.name
+  ks.foldl (fun s k => s ++ "_" ++ toString k) f.unit
+
+/-- the decidable check of one component -/
+def Family.compOK (f : Family) (ks : List Nat) (o : Nat → E) (j : Nat) : Bool :=
+  let e := f.post ks o j
+  let s := f.spec ks j
+  match f.kind with
+  | .poly => polyEq e s
+  | .syn => e == s
+  | .frac => fracEq e s && e.divisors.all (divisorAllowed (f.allowed ks)) && s.divisors.all (divisorAllowed (f.allowed ks))
+  | .polyMod => polyEqMod (f.hyps ks) (f.cert ks j) e s
+  | .fracMod => fracEqMod (f.hyps ks) (f.cert ks j) e s && e.divisors.all (divisorAllowed (f.allowed ks))
+      && s.divisors.all (divisorAllowed (f.allowed ks))
 
 /-- the decidable table check for one unit of a family -/
 def Family.okAt (f : Family) (look : String → List Nat → Unit) (ks : List Nat) : Bool :=
-  let u := look f.name ks
-  match f.kind with
-  | .poly => u.polyAgrees (f.nOut ks) (f.spec ks)
-  | .syn => u.synAgrees (f.nOut ks) (f.spec ks)
-  | .frac => u.fracAgrees (f.nOut ks) (f.spec ks) (f.allowed ks)
+  match (look f.unit ks).leafOuts with
+  | none => false
+  | some l => l.length == f.nRaw ks && (List.range (f.nOut ks)).all (f.compOK ks (fun i => l.getD i (.lit 0 1)))
 
 /-- every unit of the family meets the family's specification -/
 def Family.ok (f : Family) (look : String → List Nat → Unit) : Bool := f.keys.all (f.okAt look)
